@@ -209,6 +209,13 @@ def handle (j : Json) : Except String Json := do
     let lm ← (← j.getObjVal? "leftmost").getBool?
     pure (exc (fun (d : List (List Sym)) => Json.arr (d.map fun f => Json.arr (f.map encSym).toArray).toArray)
       (G.deriveWord w lm))
+  | "cfg_print_cyk" => do
+    let G ← decCFG (← j.getObjVal? "G"); let w ← getStrList j "w"
+    pure (exc Json.str (do let X ← G.cykMatrix w; Keys.printCyk X w.length))
+  | "cfg_derivation_key" => do
+    let G ← decCFG (← j.getObjVal? "G"); let w ← getStrList j "w"
+    let lm ← (← j.getObjVal? "leftmost").getBool?
+    pure (exc Json.str (do let d ← G.deriveWord w lm; pure (Keys.printDerivation d)))
   | "pda_to_cfg" => do
     let P ← decPDA (← j.getObjVal? "P")
     pure (exc (fun (r : List String × List String × List (String × List (Bool × String)) × String) =>
